@@ -94,3 +94,75 @@ Print Assumptions c04_window_le_free.
 Print Assumptions c04_no_discard.
 Print Assumptions c04_read_prefix_of_stream.
 Print Assumptions c04_model_trace_ok.
+
+(* ================================================================== connection level: c04_vsock_ack_ok
+   (Conn/C04_Pred.v: every emitted ack_nr is the highest in-order sequence number received, never moves back)
+   against every trace of the connection model (proofs in Conn/C04_Step.v, guard in Conn/C04_Guard.v) *)
+From Utp Require Import Wire.SeqNr Wire.Header Conn.Recovery Conn.Msg Conn.VSockRec Conn.VSock Conn.VSockRun Conn.VObs
+  Conn.C17_Proofs Conn.C04_Pred Conn.C04_Pred2 Conn.C04_Guard Conn.C04_Step Conn.C04_Consumed.
+
+(* c04_vsock_ack_ok AS WRITTEN IS FALSE of the model (two witnesses below).  Under the guard c04_peer_ok - the peer
+   delivers at most WRAP_TOLERANCE packets that carry a sequence number, with 16-bit sequence numbers, and no
+   ST_DATA numbered at or above an ST_FIN it delivers - it holds along every trace from vsock_new on a valid
+   configuration: c04_vsock_ack_guarded cfg tr = if c04_peer_ok cfg tr then c04_vsock_ack_ok cfg tr else true *)
+Theorem c04_vsock_ack_guarded_trace :
+  forall CC (cci : cc_iface CC) mk c cfg (s0 : vsock CC) ops,
+  C10_Pred.vconfig_ok c = true -> vsock_new cci mk c = Some s0 ->
+  c04_vsock_ack_guarded cfg (ftrace cci s0 ops) = true.
+Proof. exact (@C04_Step.c04_vsock_ack_guarded_trace). Qed.
+
+(* the guard in its two parts: inside the tolerance part (c04_tol_ok: at most WRAP_TOLERANCE sequence-carrying
+   packets, 16-bit numbers) a failure of c04_vsock_ack_ok is of the known class D22 (c04_d22_class: the peer
+   delivered an ST_DATA numbered at or above an ST_FIN it delivered):
+   c04_vsock_ack_or_d22 cfg tr = if c04_tol_ok cfg tr then c04_vsock_ack_ok cfg tr || c04_d22_class cfg tr else true *)
+Theorem c04_vsock_ack_or_d22_trace :
+  forall CC (cci : cc_iface CC) mk c cfg (s0 : vsock CC) ops,
+  C10_Pred.vconfig_ok c = true -> vsock_new cci mk c = Some s0 ->
+  c04_vsock_ack_or_d22 cfg (ftrace cci s0 ops) = true.
+Proof. exact (@C04_Step.c04_vsock_ack_or_d22_trace). Qed.
+
+(* the same for c04_consumed_honest_ok (Conn/C04_Pred2.v: after EVERY event the number the endpoint would
+   acknowledge is honest and has not moved back), under the same guard:
+   c04_consumed_honest_guarded cfg tr = if c04_peer_ok cfg tr then c04_consumed_honest_ok cfg tr else true *)
+Theorem c04_consumed_honest_guarded_trace :
+  forall CC (cci : cc_iface CC) mk c cfg (s0 : vsock CC) ops,
+  C10_Pred.vconfig_ok c = true -> vsock_new cci mk c = Some s0 ->
+  c04_consumed_honest_guarded cfg (ftrace cci s0 ops) = true.
+Proof. exact (@C04_Consumed.c04_consumed_honest_guarded_trace). Qed.
+
+Theorem c04_peer_ok_split :
+  forall cfg tr, c04_peer_ok cfg tr = c04_tol_ok cfg tr && negb (c04_d22_class cfg tr).
+Proof. exact C04_Step.peer_ok_split. Qed.
+
+(* (2) a peer that sends ST_DATA above its own FIN makes the endpoint acknowledge a number that never arrived
+   (ack_nr 3 after 2, 4, FIN 1, 2): the same on the real code *)
+Theorem c04_vsock_ack_ok_refuted_after_fin :
+  exists cfg ops s0,
+    C10_Pred.vconfig_ok cfg = true /\
+    vsock_new (fixed_cc 4096) (fun _ _ => tt) cfg = Some s0 /\
+    c04_vsock_ack_ok cfg (ftrace (fixed_cc 4096) s0 ops) = false.
+Proof. exact C04_Step.c04_vsock_ack_ok_refuted_after_fin. Qed.
+
+Theorem c04_after_fin_shape : c04_after_fin_b = true.
+Proof. exact C04_Step.c04_after_fin_shape. Qed.
+
+(* (1) beyond the wrap tolerance (D4) the predicate's own distance is read as negative: 1025 in-order packets
+   across the wrap of the sequence space; with 1024 the guard and the predicate hold *)
+Theorem c04_vsock_ack_ok_refuted_wrap :
+  exists cfg ops s0,
+    C10_Pred.vconfig_ok cfg = true /\
+    vsock_new (fixed_cc 4096) (fun _ _ => tt) cfg = Some s0 /\
+    c04_vsock_ack_ok cfg (ftrace (fixed_cc 4096) s0 ops) = false.
+Proof. exact C04_Step.c04_vsock_ack_ok_refuted_wrap. Qed.
+
+Theorem c04_wrap_shape : c04_wrap_b = true.
+Proof. exact C04_Step.c04_wrap_shape. Qed.
+
+Print Assumptions c04_vsock_ack_guarded_trace.
+Print Assumptions c04_vsock_ack_or_d22_trace.
+Print Assumptions c04_consumed_honest_guarded_trace.
+Print Assumptions c04_peer_ok_split.
+Print Assumptions c04_vsock_ack_ok_refuted_after_fin.
+Print Assumptions c04_after_fin_shape.
+Print Assumptions c04_vsock_ack_ok_refuted_wrap.
+Print Assumptions c04_wrap_shape.
